@@ -62,6 +62,10 @@ def _group(args):
         for mm in (mems if not quick else [None, mems[1] if len(mems) > 1 else None, mems[-1]]):
             for mpn in ([None] if ctype != "multipart" else ([None, partsl[1] if len(partsl) > 1 else None] if quick else partsl)):
                 combos.append((mcl, mm, mpn))
+    # the boundary value of every limit: zero is a configured limit, not "no limit"
+    for z in ((0, None, None), (None, 0, None), (None, None, 0), (0, 0, 0)):
+        if z not in combos and (ctype == "multipart" or z[2] is None):
+            combos.append(z)
     for mcl, mm, mpn in combos:
         for has_cl in (True, False):
             for term in (True, False):
